@@ -29,4 +29,13 @@ def binImage (a : Img) (b : Int) : Img :=
           out := out.push s
     return ⟨n0, n1, n2, out⟩
 
+/-- **One axis of `bin_image` on a list** — the three source steps along one axis: `npix = s // b`, keep
+`image[: npix * b]`, reshape to `(npix, b)` blocks and sum every block. (`b ≥ 1`; the 3-D image is this
+applied along every axis.) -/
+def binList (b : Nat) (xs : List Rat) : List Rat :=
+  (List.range (xs.length / b)).map fun i => ((xs.drop (b * i)).take b).sum
+
+/-- a history of binnings of one axis: `binning(b₁).binning(b₂)…` -/
+def binHist (bs : List Nat) (xs : List Rat) : List Rat := bs.foldl (fun acc b => binList b acc) xs
+
 end Model
